@@ -78,6 +78,10 @@ type w4MetricState struct {
 	creations  []w4Creation // successful creations since the last reset
 	resetValue int64        // 0: never reset (or reset to default)
 	hasReset   bool
+	resetAt    int64 // clock reading of the reset operation
+	// the reset was made after the global budget was exhausted: from then on every creation of the
+	// metric is accounted (before that a creation puts the metric's budget back to the maximum)
+	resetLimited bool
 }
 
 type w4MapModel struct {
@@ -109,6 +113,10 @@ var w4Metrics = []string{"mm0", "mm1", "mm2"}
 
 func (m *w4MapModel) gen(c *verifsim.Choices) w4MapIn {
 	key := func() string { return fmt.Sprintf("k%d", c.Intn(12, "key")) }
+	if m.focus && m.allowResets && c.Intn(10, "ff_reset") == 0 {
+		// flood-focused runs with resets: the one busy metric is reset to a small value now and then
+		return w4MapIn{Kind: "reset", Metric: w4Metrics[0], Limit: int64(1 + c.Intn(3, "ff_resetlimit"))}
+	}
 	if m.focus && c.Intn(8, "ff_op") != 7 {
 		// fresh keys so that every call is a creation attempt
 		m.focusKey++
@@ -327,13 +335,25 @@ func (w *w4World) checkMaps() {
 							hi = ms.creations[i].at
 						}
 						cnt := int64(n - i)
-						allowed := base + m.opt.BudgetBonus*w4Steps(ms.creations[i].at, hi, m.opt.StepSec)
+						b := base
+						if ms.hasReset && ms.resetLimited && ms.resetValue <= m.opt.MaxBudget {
+							// a reset to a value below the maximum: what the metric can have at creation i is that
+							// value plus the bonus of the steps since the reset, capped by the maximum
+							b = ms.resetValue + m.opt.BudgetBonus*w4Steps(ms.resetAt, ms.creations[i].at, m.opt.StepSec)
+							if b > m.opt.MaxBudget {
+								b = m.opt.MaxBudget
+							}
+						}
+						allowed := b + m.opt.BudgetBonus*w4Steps(ms.creations[i].at, hi, m.opt.StepSec)
 						if cnt > allowed {
 							sig := "steady"
 							if m.clockWentBack {
 								sig = "clock-went-back"
 							}
-							r.Fail("C19", "flood_limit_exceeded", sig, "metric %q created %d mappings between t=%d and t=%d; budget %d + bonus %d x %d elapsed steps allows %d", in.Metric, cnt, ms.creations[i].at, op.at, base, m.opt.BudgetBonus, w4Steps(ms.creations[i].at, hi, m.opt.StepSec), allowed)
+							if ms.hasReset && ms.resetLimited && ms.resetValue <= m.opt.MaxBudget {
+								sig += ":after-reset-to-value"
+							}
+							r.Fail("C19", "flood_limit_exceeded", sig, "metric %q created %d mappings between t=%d and t=%d; budget %d + bonus %d x %d elapsed steps allows %d", in.Metric, cnt, ms.creations[i].at, op.at, b, m.opt.BudgetBonus, w4Steps(ms.creations[i].at, hi, m.opt.StepSec), allowed)
 							return
 						}
 					}
@@ -394,6 +414,8 @@ func (w *w4World) checkMaps() {
 				ms.hasReset, ms.resetValue = false, 0
 			} else {
 				ms.hasReset, ms.resetValue = true, int64(out.Count) // the value the API says it set
+				ms.resetAt = op.at
+				ms.resetLimited = int64(m.maxCreated) > m.opt.GlobalBudget
 				if int64(out.Count) > in.Limit {
 					r.Fail("C19", "reset_value", "reset", "%s reports budget %d above the requested limit", in, out.Count)
 					return
